@@ -21,7 +21,8 @@ RULE = ("sets reached by random histories (add/update/rename/replace with descri
         "'#', ':', spaces inside), descriptions (absent, empty, text, non-ASCII, with '#'), "
         "benign and soft values (commas, brackets, non-ASCII, CRLF/LF inside a value; quotes/backslashes are C06's), "
         "default and custom marker-prefix pairs; the saved text is read back through parse(bytes), "
-        "parse(str) and parse_file in rotation. Non-trivial = the set has at least one "
+        "parse(str) and parse_file in rotation, half of the time by a long-lived Parser that has "
+        "just parsed a script leaving marker comments unattached. Non-trivial = the set has at least one "
         "filter and its rendering parses; distinct = distinct rendered texts.")
 ASSUMPTIONS = [
     "names/descriptions: single-line, no marker prefix inside, not surrounded by white space",
@@ -30,6 +31,7 @@ ASSUMPTIONS = [
 ]
 FLOORS = {
     "quick": {"reloads": 10000, "reloads-with-disabled": 2000, "reloads-via-file": 3000,
+              "reloads-through-a-used-parser": 5000,
               "reloads-with-CR-in-text": 1000,
               "reloads-with-description": 2000, "reloads-custom-prefix": 2000},
     "thorough": {"reloads": 150000, "reloads-with-disabled": 30000, "reloads-via-file": 40000,
@@ -59,6 +61,14 @@ def reload(text, prefixes):
     """parse the saved text through the entry point selected for this case (a saved
     script is normally read back with parse_file) and load it"""
     p = lab.sl_parser.Parser()
+    if VIA.get("dirty"):
+        # a long-lived Parser that has just been used on another script, one that leaves
+        # marker comments unattached (after its last command / right before its error)
+        p = VIA.setdefault("parser", p)
+        for junk in ("keep;\n%sstale name\n%sstale description\n" % prefixes,
+                     "%sstale name 2\n%sstale description 2\nfoobar;\n" % prefixes):
+            if VIA["dirty"] == 1 or junk.endswith("foobar;\n"):
+                lab.parse(junk.encode("utf-8"), parser=p)
     data = text.encode("utf-8")
     if VIA["via"] == "file" and VIA["tmp"]:
         with open(VIA["tmp"], "wb") as f:
@@ -169,6 +179,9 @@ def _run_shard(tier, shard, res: Result):
     rng = random.Random(shard["rs"])
     for i in range(shard["n"]):
         VIA["via"] = ("bytes", "str", "file")[i % 3]
+        VIA["dirty"] = (0, 0, 1, 2)[i % 4]
+        if VIA["dirty"]:
+            res.count("reloads-through-a-used-parser")
         prefixes = rng.choice(PREFIXES)
         vkind = rng.choice(["benign", "soft"])
         names = rng.sample(NAMES, 3)
